@@ -6,6 +6,7 @@
     Only pinned statements, each closed by [exact]. *)
 From Coq Require Import List ZArith Bool Permutation Sorted.
 From VibeSQL Require Import Sem.Syntax Sem.Rel Sem.Laws Mech.IndexOrder Mech.IndexOrderLaws.
+From VibeSQL Require Import Sem.OrderLaws.
 Import ListNotations.
 
 Theorem C08_order_cmp_total : forall (ks : list (nat * bool)) (a b : row),
@@ -65,3 +66,17 @@ Theorem C08_index_order_mixed_directions_refuted :
                /\ sortedb (row_le ks) (index_order_output ks l) = false.
 Proof. exact index_order_mixed_directions_refuted. Qed.
 Print Assumptions C08_index_order_mixed_directions_refuted.
+
+(** the comparator is transitive, and every sorted permutation of the input — however it is produced:
+    sort, merged runs, index order — carries the key sequence of the reference sort: the returned
+    sequence is determined wherever ORDER BY determines it *)
+Theorem C08_row_le_trans : forall (ks : list (nat * bool)) (a b c : row),
+  row_le ks a b = true -> row_le ks b c = true -> row_le ks a c = true.
+Proof. exact row_le_trans. Qed.
+Print Assumptions C08_row_le_trans.
+
+Theorem C08_order_by_keys_determined : forall (ks : list (nat * bool)) (input result : list row),
+  Sorted (fun a b => row_le ks a b = true) result -> Permutation input result ->
+  map (keyvec ks) result = map (keyvec ks) (sort_rows (row_le ks) input).
+Proof. exact any_sorted_perm_has_reference_keys. Qed.
+Print Assumptions C08_order_by_keys_determined.
